@@ -293,7 +293,20 @@ func NewExec(id uint64, p *prog.Program, sc *prog.Scenario, quiet bool) *Exec {
 	return x
 }
 
-func (x *Exec) Close() { execs.Delete(x.ID) }
+// Close retires the execution. Its id stays known: a function of this
+// execution that is somehow still called afterwards (a straggler) must never
+// be booked on the execution that happens to be current by then.
+func (x *Exec) Close() {
+	execs.Delete(x.ID)
+	closed.Store(x.ID, struct{}{})
+}
+
+var closed sync.Map // ids of retired executions
+
+// orphan takes the calls of retired executions: no recorder, every outcome ok.
+var orphan = &Exec{Quiet: true, Sc: &prog.Scenario{Out: map[int]prog.Outcome{}, ElemOut: map[int]map[uint64]prog.Outcome{}, FnInfo: map[int]prog.FnInfo{}}, gate: closedChan()}
+
+func closedChan() chan struct{} { c := make(chan struct{}); close(c); return c }
 
 // SetCurrent makes x the execution that functions without any handle find.
 func SetCurrent(x *Exec) { cur.Store(x) }
@@ -310,6 +323,9 @@ func Find(ctx context.Context, toks ...uint64) *Exec {
 		if t != 0 {
 			if v, ok := execs.Load(t >> 44); ok {
 				return v.(*Exec)
+			}
+			if _, was := closed.Load(t >> 44); was {
+				return orphan
 			}
 		}
 	}
